@@ -77,4 +77,8 @@ FieldCovariant == pc = "field" => Covariant(F, N, gset, rank, tTR, tInv)
 IrredEqualsFull == pc = "done" => irr = NormT(rank, ScaleT(rank, Cardinality(gset), full))
 FullIsGridSum   == pc = "done" => full = GridSum(F, N, rank)
 TabOnGrid       == pc = "done" => tabok
+(* run(use_irred_kpt=False, symmetrize=True): symmetrisation alone, over the full K-list, changes nothing *)
+SymOnlyEqualsFull == pc = "done" =>
+   LET kf == KList(div, gset, FALSE)
+   IN IrrIntegral(kf, KSetsOf(kf, div, fft, TRUE), F, gset, rank, dTR, dInv) = NormT(rank, ScaleT(rank, Cardinality(gset), full))
 =============================================================================
